@@ -94,6 +94,7 @@ def key_of(c):
     return f"{c['d']}{'(forward)' if c['fwd'] else ''}|{'enum' if sh['enum'] else 'struct'}[{vs}]"
 
 
+FN = ["a", "b", "c"]    # named fields; a second pass names them like the identifiers the expansions use themselves
 SAME_TYPES = False     # set per case: every field has the SAME type (a derive keyed by field type must still treat each field)
 
 
@@ -109,7 +110,7 @@ def variant_body(v, pub="pub "):
         return ""
     if v["k"] == "tuple":
         return "(" + ", ".join(f"{pub}{fty(i)}" for i in range(1, n + 1)) + ")"
-    return "{ " + ", ".join(f"{pub}{'abc'[i - 1]}: {fty(i)}" for i in range(1, n + 1)) + " }"
+    return "{ " + ", ".join(f"{pub}{FN[i - 1]}: {fty(i)}" for i in range(1, n + 1)) + " }"
 
 
 def variant_val(v, base, path):
@@ -119,14 +120,14 @@ def variant_val(v, base, path):
     vals = [f"{fty(i)}({base(i)})" for i in range(1, n + 1)]
     if v["k"] == "tuple":
         return f"{path}(" + ", ".join(vals) + ")"
-    return f"{path} {{ " + ", ".join(f"{'abc'[i - 1]}: {vals[i - 1]}" for i in range(1, n + 1)) + " }"
+    return f"{path} {{ " + ", ".join(f"{FN[i - 1]}: {vals[i - 1]}" for i in range(1, n + 1)) + " }"
 
 
 def fields_expr(v, var):
     n = v["n"]
     if v["k"] == "tuple":
         return "vec![" + ", ".join(f"{var}.{i - 1}.0" for i in range(1, n + 1)) + "]"
-    return "vec![" + ", ".join(f"{var}.{'abc'[i - 1]}.0" for i in range(1, n + 1)) + "]"
+    return "vec![" + ", ".join(f"{var}.{FN[i - 1]}.0" for i in range(1, n + 1)) + "]"
 
 
 def module(c, key, max_items):
@@ -172,7 +173,7 @@ def module(c, key, max_items):
                 b = ", ".join(f"f{j}" for j in range(v["n"]))
                 pats.append(f"E::V{i}({b}) => format!(\"[\\\"ok\\\",{i + 1},[{{}}]]\", (vec![{', '.join(f'f{j}.0.to_string()' for j in range(v['n']))}] as Vec<String>).join(\",\")),")
             else:
-                b = ", ".join(f"{'abc'[j]}: f{j}" for j in range(v["n"]))
+                b = ", ".join(f"{FN[j]}: f{j}" for j in range(v["n"]))
                 pats.append(f"E::V{i} {{ {b} }} => format!(\"[\\\"ok\\\",{i + 1},[{{}}]]\", (vec![{', '.join(f'f{j}.0.to_string()' for j in range(v['n']))}] as Vec<String>).join(\",\")),")
         lines.append("fn show(e: &E) -> String { match e { " + " ".join(pats) + " } }")
         ls = [variant_val(v, lambda i: 11 + i, f"E::V{i}") for i, v in enumerate(vs)]
@@ -231,6 +232,18 @@ def run(chk, tier, seed, replay):
             cases[k2] = rec
             mods.append((k2, module(rec["c"], k2, max_items)))
     SAME_TYPES = False
+    # named fields called like the expansions' own parameters / locals (`rhs`, `iter`, `lhs`): a generated `let` or
+    # pattern binding of that name would capture the field instead
+    global FN
+    FN = ["rhs", "iter", "lhs"]
+    for k, rec in list(cases.items()):
+        if "|" in k.split("]")[-1]:
+            continue
+        if any(v["k"] == "named" and v["n"] >= 1 for v in rec["c"]["sh"]["vs"]):
+            k2 = k + "|internal_names"
+            cases[k2] = rec
+            mods.append((k2, module(rec["c"], k2, max_items)))
+    FN = ["a", "b", "c"]
     log(f"[C10] {len(mods)} operator derives")
     nsh = 4
     shards = [mods[i::nsh] for i in range(nsh)]
